@@ -186,7 +186,7 @@ def check_listing_content(text, obs, case, image, counters):
 
 
 def listing_paths(obs):
-    return sorted(p for (_s, op_, p, _d) in obs["events"] if op_ in ("create", "truncate") and p.endswith(".lst"))
+    return sorted(p for (_s, op_, p, _d) in obs["events"] if op_ in ("create", "truncate", "open-rw") and p.endswith(".lst"))
 
 
 def check_io(obs, case, fault_free=True, ref=None):
